@@ -41,6 +41,101 @@ def spawn_program(n, rnd, fatal_at=None, nested=False):
     return "\n".join(src) + "\n", lines
 
 
+def join_program(n, rnd, fatal_at=None, nested=False):
+    """main spawns n threads and joins them (in another order, some twice, some never); a thread's result is computed from
+    the arguments given at the spawn.  -> (source, per-core line lists, [(line of the joiner, core joined before it)])"""
+    lines = collections.OrderedDict()
+    afters = []
+    src = ["fn leaf(id: int, l: [int]) -> int {", "    println(\"leaf\", id, \"a\", l);", "    l.push(id);"]
+    if fatal_at is not None:
+        src.append("    if id == %d { throw(\"child failed\"); }" % fatal_at)
+    src += ["    println(\"leaf\", id, \"b\", l.len());", "    id * 100 + l.len()", "}",
+            "fn mid(id: int) -> int {", "    let a = spawn leaf(id * 10 + 1, [id]);", "    let b = spawn leaf(id * 10 + 2, [id, id]);",
+            "    let r = b.join() + a.join();", "    println(\"mid\", id, r);", "    r", "}",
+            "fn quiet(id: int) { println(\"quiet\", id); }",
+            "fn texts(id: int) -> [str] { println(\"texts\", id); [id.to_string(), \"x\"] }",
+            "fn main() {", "    println(\"main start\");"]
+
+    def leaf_lines(i, ln):
+        ls = ["leaf %d a [%s]" % (i, ", ".join(str(x) for x in ln)), "leaf %d b %d" % (i, len(ln) + 1)]
+        return ls[:1] if fatal_at == i else ls
+    main_lines = ["main start"]
+    kinds = {}
+    for k in range(1, n + 1):
+        kind = rnd.choice(["leaf", "leaf", "quiet", "texts"] + (["mid"] if nested else []))
+        kinds[k] = kind
+        if kind == "leaf":
+            ln = [rnd.randint(0, 9) for _ in range(rnd.randint(0, 3))]
+            src.append("    let l%d = [%s];" % (k, ", ".join(map(str, ln))) if ln else "    let l%d: [int] = [];" % k)
+            src.append("    let h%d = spawn leaf(%d, l%d);" % (k, k, k))
+            src.append("    l%d.push(77);" % k)             # the thread keeps the value given at the spawn
+            lines["t%d" % k] = leaf_lines(k, ln)
+            kinds[k] = ("leaf", k * 100 + len(ln) + 1)
+        elif kind == "mid":
+            src.append("    let h%d = spawn mid(%d);" % (k, k))
+            a, b = k * 10 + 1, k * 10 + 2
+            lines["t%da" % k] = leaf_lines(a, [k])
+            lines["t%db" % k] = leaf_lines(b, [k, k])
+            r = a * 100 + 2 + b * 100 + 3
+            lines["t%d" % k] = ["mid %d %d" % (k, r)]
+            afters += [("mid %d %d" % (k, r), "t%da" % k), ("mid %d %d" % (k, r), "t%db" % k)]
+            kinds[k] = ("mid", r)
+        elif kind == "quiet":
+            src.append("    let h%d = spawn quiet(%d);" % (k, k))
+            lines["t%d" % k] = ["quiet %d" % k]
+            kinds[k] = ("quiet", None)
+        else:
+            src.append("    let h%d = spawn texts(%d);" % (k, k))
+            lines["t%d" % k] = ["texts %d" % k]
+            kinds[k] = ("texts", "[%d, x]" % k)
+    order = list(range(1, n + 1))
+    rnd.shuffle(order)
+    for k in order:
+        kind, val = kinds[k]
+        how = rnd.randrange(4)
+        if how == 0:
+            continue                    # never joined: the host's wait still waits for it
+        reps = 2 if how == 3 else 1
+        for j in range(reps):
+            if kind == "quiet":
+                src.append("    h%d.join();" % k)
+                src.append("    println(\"joined\", %d, %d);" % (k, j))
+                line = "joined %d %d" % (k, j)
+            elif kind == "texts":
+                src.append("    let v%d_%d = h%d.join();" % (k, j, k))
+                src.append("    v%d_%d.push(\"mine\");" % (k, j))       # what join gives out is the joiner's own
+                src.append("    println(\"joined\", %d, v%d_%d.len(), h%d.join());" % (k, k, j, k))
+                line = "joined %d 3 %s" % (k, val)
+            else:
+                src.append("    println(\"joined\", %d, h%d.join(), %d);" % (k, k, j))
+                line = "joined %d %d %d" % (k, val, j)
+            main_lines.append(line)
+            afters.append((line, "t%d" % k))
+            if kind == "mid":
+                afters += [(line, "t%da" % k), (line, "t%db" % k)]
+    src += ["    println(\"main end\");", "}"]
+    main_lines.append("main end")
+    if fatal_at is not None and kinds.get(fatal_at, ("", 0))[0] != "leaf":
+        fatal_at = None
+    lines["main"] = main_lines
+    return "\n".join(src) + "\n", lines, afters, fatal_at
+
+
+def check_after(out, lines, afters):
+    """a line printed after a join comes after every line of the joined thread"""
+    got = [l for l in out.split("\n") if l != ""]
+    for line, core in afters:
+        if line not in got:
+            continue
+        at = got.index(line)
+        for l in lines[core]:
+            if l not in got:
+                return "%r is printed although %s has not printed %r" % (line, core, l)
+            if got.index(l) > at:
+                return "%r is printed before %r of the joined %s" % (line, l, core)
+    return None
+
+
 def check_output(out, lines, fatal):
     """every line once and whole, per-core order preserved; with a fatal core the rest may be cut short"""
     got = [l for l in out.split("\n") if l != ""]
@@ -80,6 +175,7 @@ def run(args):
     K.model_check(rep, thorough)
     pool = C.Pool(C.build_worker())
     runs = []
+    watched = set()
     nprog = 40 if thorough else 12
     for i in range(nprog):
         n = 1 + (i % 8)
@@ -87,17 +183,27 @@ def run(args):
         src, lines = spawn_program(n, rnd, fatal_at=fatal, nested=(i % 3 == 1))
         for procs in ((1, 2, 4, 16) if thorough else (1, 4, 16)):
             for j in range(3 if thorough else 2):
-                runs.append((src, lines, fatal, procs, rnd.randrange(1, 1 << 30)))
+                runs.append((src, lines, fatal, procs, rnd.randrange(1, 1 << 30), None))
+        # the same with threads which are joined for their results
+        src, lines, afters, jfatal = join_program(n, rnd, fatal_at=fatal, nested=(i % 3 != 0))
+        for procs in ((1, 2, 4, 16) if thorough else (1, 4, 16)):
+            for j in range(3 if thorough else 2):
+                runs.append((src, lines, jfatal, procs, rnd.randrange(1, 1 << 30), afters))
+        # and with further host goroutines which wait without consuming (WaitNonConsuming) beside the host's Wait
+        watched.add(len(runs))
+        runs.append((src, lines, jfatal, 4, rnd.randrange(1, 1 << 30), afters))
+        watched.add(len(runs))
+        runs.append(spawn_program(n, rnd, fatal_at=None, nested=True) + (None, 16, rnd.randrange(1, 1 << 30), None))
     reqs = [{"op": "run", "id": i, "a": {"modules": {"main": s}, "entry": "main", "backend": "vm", "trace": True,
-                                         "jitter": j, "procs": p, "timeout_ms": 10000}}
-            for i, (s, l, f, p, j) in enumerate(runs)]
+                                         "jitter": j, "procs": p, "timeout_ms": 10000, "watchers": (1 + i % 2) if i in watched else 0}}
+            for i, (s, l, f, p, j, af) in enumerate(runs)]
     res = pool.map(reqs, timeout=30)
     traces = []
     owners = []
-    for (src, lines, fatal, procs, jit), r in zip(runs, res):
+    for (src, lines, fatal, procs, jit, afters), r in zip(runs, res):
         rep.count()
         rep.nontrivial((src, procs, jit))
-        feat = {"family": "spawn", "procs": procs, "fatal": fatal is not None, "ncores": len(lines) - 1}
+        feat = {"family": "spawn" if afters is None else "spawn-join", "procs": procs, "fatal": fatal is not None, "ncores": len(lines) - 1}
         if "crash" in r or "hang" in r:
             rep.fail(dict(feat, kind="hostcrash" if "crash" in r else "hang",
                           panic=(r.get("crash") or {}).get("stderr", "")[:200]), {"program": src, "real": r})
@@ -113,8 +219,18 @@ def run(args):
         err = check_output(rr["out"], lines, fatal is not None)
         if err:
             rep.fail(dict(feat, kind="output", what=re.sub(r"\d+", "N", err)[:60]), {"program": src, "out": rr["out"], "error": err})
+        err = check_after(rr["out"], lines, afters) if afters else None
+        if err:
+            rep.fail(dict(feat, kind="join-order", what=re.sub(r"\d+", "N", err)[:60]), {"program": src, "out": rr["out"], "error": err})
         if rr.get("goroutines", 0) > 0:
             rep.fail(dict(feat, kind="goroutine-leak"), {"program": src, "goroutines": rr["goroutines"]})
+        resd = rr.get("residue") or {}
+        if resd.get("watchers"):
+            feat["family"] += "-watched"
+            if oc["kind"] == "wait-stuck" or resd.get("watchers_returned") != resd["watchers"]:
+                rep.fail(dict(feat, kind="wait-wedged", wait=oc["kind"]), {"program": src, "residue": resd, "outcome": oc})
+            elif resd.get("cores_seen_on_return"):
+                rep.fail(dict(feat, kind="watcher-returned-early"), {"program": src, "residue": resd})
         traces.append(rr["trace"])
         owners.append((src, procs, jit))
     # trace validation in batches (a rejected trace stops its batch; the rest is re-validated without it)
@@ -176,11 +292,11 @@ def run(args):
     # the same programs under the race detector
     racebin = C.build_worker(race=True)
     rpool = C.Pool(racebin, n=8, env=dict(C.GOENV, GORACE="halt_on_error=1 exitcode=66"))
-    rreqs = reqs[::3 if not thorough else 2]
-    rruns = runs[::3 if not thorough else 2]
+    rreqs = reqs[::5 if not thorough else 2]
+    rruns = runs[::5 if not thorough else 2]
     rres = rpool.map([dict(q, a=dict(q["a"], trace=False, jitter=0)) for q in rreqs], timeout=60)
     nrace = 0
-    for (src, lines, fatal, procs, jit), r in zip(rruns, rres):
+    for (src, lines, fatal, procs, jit, afters), r in zip(rruns, rres):
         rep.count()
         nrace += 1
         if "crash" in r:
